@@ -48,6 +48,9 @@ class CGen:
             hexn = "0x%x" % r.randrange(0, 255)
             if not self.div_deref and hexn[-1] == "e":
                 hexn += "0"               # `0x1e + a` -> `0x1e+a` is a known finding as well
+            if r.random() < 0.08:
+                self.hit("e:hexfloat")
+                return "( int ) " + r.choice(["0x1p+2", "0x1.8p-1", "0x3p+1f", "0xAp-2", "1e+2", "2.5e-1", "1.e+1f"])
             return r.choice([self.var(loc), self.var(loc), str(r.randrange(0, 50)), hexn, "1", "0", "'a'", "07",
                              "3u" if self.lang != "JAVA" else "3", "sizeof ( int )" if self.lang != "JAVA" else "4"])
         if k < 0.55:
